@@ -205,17 +205,39 @@ class PureLegacy(Expression):
     mapper_method = "map_pure_legacy"
 
 
+class PureLegacy3(PureLegacy):
+    """a legacy class derived from another legacy class, with one more init arg"""
+    init_arg_names = ("u", "v", "w")
+
+    def __init__(self, u, v, w):
+        PureLegacy.__init__(self, u, v)
+        self.w = w
+
+    def __getinitargs__(self):
+        return (self.u, self.v, self.w)
+
+    mapper_method = "map_pure_legacy3"
+
+
+@expr_dataclass()
+class UVarSet(Variable):
+    """a Variable subclass with a set-valued field"""
+    tags: frozenset
+
+
 USER_CLASSES = {"UTag": UTag, "UTag3": UTag3, "UNamed": UNamed, "UHashless": UHashless,
                 "UDerived": UDerived, "SubVariable": SubVariable, "SubCall": SubCall,
                 "UHashInherit": UHashInherit, "UInterval": UInterval,
                 "UDerivedMid": UDerivedMid, "UCse": UCse, "SubCse": SubCse, "UShift": UShift,
                 "LegacyVar": LegacyVar,
                 "LegacyVarX": LegacyVarX, "LegacyVarX2": LegacyVarX2, "PureLegacy": PureLegacy,
-                "PureLegacyList": PureLegacyList}
+                "PureLegacyList": PureLegacyList, "PureLegacy3": PureLegacy3,
+                "UVarSet": UVarSet}
 USER_FIELDS = {"UTag": ["e", "s"], "UTag3": ["e", "s", "any"], "UNamed": ["s", "ci"],
                "UHashless": ["s", "any"], "UDerived": ["e"], "SubVariable": ["s"],
                "SubCall": ["e", "E0"], "UHashInherit": ["s", "s"],
                "UInterval": ["e", "any"], "UDerivedMid": ["e", "any"],
                "UCse": ["e", "px", "sc", "s"], "SubCse": ["e", "px", "sc"], "UShift": ["e", "ci"],
                "LegacyVar": ["s"], "LegacyVarX": ["s", "any"], "LegacyVarX2": ["s", "any"],
-               "PureLegacy": ["any", "any"], "PureLegacyList": ["s", "E0"]}
+               "PureLegacy": ["any", "any"], "PureLegacyList": ["s", "E0"],
+               "PureLegacy3": ["any", "any", "any"], "UVarSet": ["s", "FS"]}
